@@ -77,14 +77,24 @@ def _valid(rng, port: int, like: dict | None = None):
 
 
 def _junk(rng, port: int) -> tuple[bytes, str]:
-    k = rng.choice(["echo", "parts", "position", "utf8", "other_gen", "random", "empty"])
+    k = rng.choice(["echo", "parts", "position", "position", "utf8", "other_gen", "random", "empty"])
     tag = b"AirTouch4" if port == 49004 else b"AirTouch5"
     if k == "echo":
         return REQ[port], k
     if k == "parts":
         return (b"1.2.3.4," + tag + b",77") if rng.random() < 0.5 else (b"1.2.3.4,ser," + tag + (b"" if port == 49004 else b",id")), k
     if k == "position":
-        return b"1.2.3.4," + tag + b",ser,99" + (b",nm" if port == 49005 else b""), k
+        r = rng.random()
+        if r < 0.35:
+            return b"1.2.3.4," + tag + b",ser,99" + (b",nm" if port == 49005 else b""), k
+        if r < 0.7:
+            # the marker one or two parts too late (an extra leading part), everything behind it looking like a response
+            extra = rng.choice([b"gw,", b"gw,x,", b","])
+            return b"1.2.3.4," + extra + b"ser," + tag + b",id7" + (b",Home" if port == 49005 else b""), k
+        if r < 0.85:
+            # the marker only as part of a longer field
+            return b"1.2.3.4,ser,x" + tag + b",id7" + (b",Home" if port == 49005 else b""), k
+        return b"1.2.3.4,ser," + tag + b"x,id7" + (b",Home" if port == 49005 else b""), k
     if k == "utf8":
         return b"1.2.3.4,\xff\xfe," + tag + b",123" + (b",n\xffm" if port == 49005 else b""), k
     if k == "other_gen":
